@@ -114,6 +114,14 @@ fn try_evaluate_constant_list(
     list: &[Arc<dyn PhysicalExpr>],
     schema: &Schema,
 ) -> Result<Option<ArrayRef>> {
+    // A list element that references a column is never constant, even if it happens to
+    // evaluate to a scalar on an empty batch (e.g. `CASE b WHEN id THEN id END`).
+    if list
+        .iter()
+        .any(|e| !crate::utils::collect_columns(e).is_empty())
+    {
+        return Ok(None);
+    }
     let batch = RecordBatch::new_empty(Arc::new(schema.clone()));
     match evaluate_list(list, &batch) {
         Ok(array) => Ok(Some(array)),
